@@ -114,6 +114,25 @@ def features(cls: type) -> set[str]:
     return feats
 
 
+def field_signatures(cls: type) -> set:
+    import typing
+
+    out = set()
+    for f in dataclasses.fields(cls):
+        tp = f.type
+        args = typing.get_args(tp)
+        optional = typing.get_origin(tp) is not tuple and type(None) in args
+        inner = [a for a in args if a is not type(None)][0] if optional else tp
+        is_array = typing.get_origin(inner) is tuple
+        el_optional = False
+        if is_array:
+            el = typing.get_args(inner)[0]
+            el_optional = type(None) in typing.get_args(el)
+        out.add((f.metadata.get("kafka_type") or "struct", bool(cls.__flexible__), optional, is_array, el_optional,
+                 "tag" in f.metadata, cls.__name__ == "RequestHeader" and f.name == "client_id"))
+    return out
+
+
 def stratified_sample(rng, n: int) -> list[type]:
     """Seeded stratified sample: all headers, >=1 class per API, every class
     with tagged fields or a nullable struct, then a uniform fill up to n."""
@@ -136,6 +155,16 @@ def stratified_sample(rng, n: int) -> list[type]:
             take(c)
     for api in sorted(by_api):
         take(rng.choice(by_api[api]))
+    # every distinct field signature (kafka type x flexible x optional x array x
+    # tagged) is covered by at least two classes, so that every primitive
+    # reader/writer variant kio can select is exercised even in the quick tier
+    by_sig: dict = {}
+    for c in uni:
+        for sig in field_signatures(c):
+            by_sig.setdefault(sig, []).append(c)
+    for sig in sorted(by_sig, key=repr):
+        for c in rng.sample(by_sig[sig], min(2, len(by_sig[sig]))):
+            take(c)
     rest = [c for c in uni if qualname(c) not in chosen]
     rng.shuffle(rest)
     for c in rest:
